@@ -20,7 +20,8 @@ RULE = (
     "range over a magnitude ladder in [1e-4,1e6]: integers and <=4-significant-digit decimals (exact string round trip), each "
     "of those +-1 ulp and perturbed in the 5th / 6th significant digit (rounded reading); families: single (one guarantee "
     "term: every coefficient x constant of the ladder, one and two variables), pair (an opposite-coefficient pair with "
-    "constants {equal, negated, both zero, unrelated} in every position of a 2-3 term list, adjacent / separated / reversed), "
+    "constants {equal, negated, both zero, unrelated} in every position of a 2-3 term list, adjacent / separated / reversed; and "
+    "near-opposite pairs that must not be folded: extra variable on one side, one coefficient different), "
     "mixed (assumptions + several guarantees). Per contract: from_dict(to_machine_dict(c), simplify=False) must be ==, "
     "hash-equal and bit-identical field by field; machine file -> reader: same interface, equivalent A and A&G; to_dict(): "
     "every emitted string parses, and the parsed terms are exactly the original terms with every number rounded to 4 "
@@ -69,6 +70,13 @@ def _all():
                       [t, u, t]):
                 yield {"fam": "pair", "a": [], "g": g}
             yield {"fam": "pair", "a": [[{n: v for n, v in co.items() if n != "o"} or {"i": 1}, k1]], "g": [t, u]}
+    # near-opposite pairs that must NOT be folded: the later term has an extra variable, or one coefficient differs
+    for k1, k2 in ((2, 2), (2, -2), (0, 0)):
+        for t, u in (([{"o": 1}, k1], [{"o": -1, "i": 3}, k2]), ([{"o": 1, "i": 2}, k1], [{"o": -1, "i": -2, "j": 1}, k2]),
+                     ([{"o": 1, "i": 2}, k1], [{"o": -1, "i": -3}, k2]), ([{"o": 1, "i": 3}, k1], [{"o": -1}, k2]),
+                     ([{"o": 1}, k1], [{"o": -1.01}, k2])):
+            for g in ([t, u], [u, t], [t, [{"j": 1}, 5], u]):
+                yield {"fam": "pair", "a": [], "g": g}
     # mixed
     gs = [[{"o": 1}, 1000000], [{"o": -1, "i": 0.5}, 0], [{"o": 1.234, "j": -12.34}, 1234], [{"i": 1, "o": 1}, 0.001234], [{"o": -999.9}, 5.678 * (1 + 2e-6)]]
     as_ = [[{"i": 1}, 1000], [{"i": -1}, 0], [{"j": 0.25, "i": 1}, 7], [{"j": -1}, 0.0001]]
